@@ -402,18 +402,21 @@ def _probe_restores(prog: Program, run: Run, R: str = "C01.R1") -> None:
         raise AnalysisError("no probing decoder found (expected DynamicEndmarkerField)")
 
 
-def _pairing(prog: Program, run: Run) -> None:
+def _pairing(prog: Program, run: Run, only_eop: bool = False) -> None:
+    """``only_eop``: only the is_end_of_pdu part (C02 shares it: the flag decides whether the
+    terminator bytes of a MIN-MAX-LENGTH value are emitted)."""
     R = "C01.R1"
-    _origin_window(prog, run, R)
-    _probe_restores(prog, run, R)
-    encode_state_roots(prog, run, R)
+    if not only_eop:
+        _origin_window(prog, run, R)
+        _probe_restores(prog, run, R)
+        encode_state_roots(prog, run, R)
     n_origin = 0
     for f in prog.iter_functions():
         S = _state_name(f)
         if S is None:
             continue
         C = f"{f.module.rel}:{f.qual}"
-        for attr in ("origin_byte_position", "allow_unknown_parameters"):
+        for attr in (() if only_eop else ("origin_byte_position", "allow_unknown_parameters")):
             tgt = f"{S}.{attr}"
             writes = _assigns_to(f.node, tgt)
             if not writes:
@@ -539,8 +542,43 @@ def _pairing(prog: Program, run: Run) -> None:
                               "after clearing is_end_of_pdu there is a path to a normal exit that "
                               "does not restore the caller's value",
                               f"{f.module.rel}:{clears[0].lineno}", stmt_key(clears[0]))
-    if n_origin < 8:
+    if n_origin < 8 and not only_eop:
         raise AnalysisError(f"only {n_origin} functions move origin_byte_position (expected >= 8)")
+
+
+def key_value_pass_positions(prog: Program, run: Run, R: str) -> None:
+    """The value pass of LENGTH-KEY / TABLE-KEY parameters is called by the composite codec
+    directly (not through Parameter.encode_into_pdu, which positions the cursor), after all
+    other parameters have been encoded: on every path to the call that encodes the key's value
+    it must set BOTH the byte cursor (from the recorded key position) and the bit cursor (from
+    the parameter's BIT-POSITION) -- the decoder honours both. Only decided when the function
+    encodes through a `<dop>.encode_into_pdu(...)` call of its own."""
+    for cls in ("LengthKeyParameter", "TableKeyParameter"):
+        f = prog.func(f"{cls}.encode_value_into_pdu")
+        S = _state_name(f) or "encode_state"
+        C = f"{cls}.encode_value_into_pdu"
+        cfg = CFG(f.node)
+        calls = [n.id for n in cfg.nodes if n.stmt is not None and n.kind == "stmt" and any(
+            isinstance(x, ast.Call) and call_name(x) == "encode_into_pdu"
+            for x in walk_no_nested(n.stmt))]
+        if not calls:
+            run.ok(R, C, "does not encode through a DOP call of its own (positioning is decided "
+                   "where it delegates to)", f.loc)
+            continue
+        for attr, src in (("cursor_byte_position", "key_pos"), ("cursor_bit_position",
+                                                                "bit_position")):
+            ws = [w for w in _assigns_to(f.node, f"{S}.{attr}") if src in ast.unparse(w.value)]
+            wn = [cfg.node_of(w) for w in ws]
+            if wn and all(cfg.must_pass(0, wn, c) for c in calls):
+                run.ok(R, C, f"{attr} is set from {src} on every path to the call that encodes "
+                       "the key's value", f.loc)
+            else:
+                run.violation(R, C, f"value-pass-{attr}-not-set",
+                              f"there is a path to `encode_into_pdu` of the key's value on which "
+                              f"{S}.{attr} is not set from {src}: the composite codec calls this "
+                              "pass directly, after the other parameters, so the cursor is "
+                              "wherever the last parameter left it and the key is written to a "
+                              "different place than the decoder reads it from", f.loc)
 
 
 # ----------------------------------------------------------------------- R2
